@@ -26,7 +26,7 @@ open ShellOp ShellOp.Util ShellOp.Combine ShellOp.Retry
 
 /-- The stop-combine predicate of the code as it is in the repository (after the repair:
 `stopCombineOnAllowFailureChange(hookMeta)`; before it the code passed `nil`). -/
-def codeStopOf : Task → Option (Task → Bool) := stopOnAllowFailureChange
+def codeStopOf : Task → Option (Task → Bool) := stopOnAllowFailureChangeOrSkippedSync
 
 def params : Backoff.Params := Retry.realParams
 
